@@ -253,6 +253,9 @@ func (x *Exec) inlineOrContract(s *State, fi *FuncInfo, recv *Value, args []*Val
 	if fi == nil {
 		x.fail(call.Pos(), "call of function without body")
 	}
+	if fi.Contr != nil && fi.Contr.Pure && x.dryRun != fi && !(x.cur != nil && x.cur.top && x.cur.fi == fi) && !x.verifyingSelf(fi) {
+		return x.applyPure(s, fi, recv, args, call)
+	}
 	if fi.Contr != nil && fi.Contr.Modular && x.specMode == 0 {
 		return x.applyContract(s, fi, recv, args, call)
 	}
@@ -344,9 +347,15 @@ func (x *Exec) inlineBody(s *State, fi *FuncInfo, ft *ast.FuncType, body *ast.Bl
 	for _, e := range rets[1:] {
 		sel := relCond(e.S.PC, acc.S.PC)
 		mvals := make([]*Value, nres)
+		needLiven := make([]bool, nres)
 		for i := 0; i < nres; i++ {
-			a, b := x.deadenIfPtr(e.S, e.Vals[i]), x.deadenIfPtr(acc.S, accVals[i])
+			a, b := e.Vals[i], accVals[i]
 			m, ok := iteV(sel, a, b)
+			if !ok {
+				// values holding pointers to different cells: merge in inline form
+				m, ok = iteV(sel, deadenS(e.S, a), deadenS(acc.S, b))
+				needLiven[i] = ok
+			}
 			if !ok {
 				x.note("results of %s have different shapes on different paths (%s): result %d havocked", c.name(), shapeDiff(a, b, ""), i)
 				m = freshLike(c.resTypes[i], "merged")
@@ -354,6 +363,11 @@ func (x *Exec) inlineBody(s *State, fi *FuncInfo, ft *ast.FuncType, body *ast.Bl
 			mvals[i] = m
 		}
 		ms := mergeStates(sel, e.S, acc.S)
+		for i := range mvals {
+			if needLiven[i] {
+				mvals[i] = livenS(ms, mvals[i])
+			}
+		}
 		acc = &Exit{Kind: "return", S: ms}
 		accVals = mvals
 	}
@@ -823,4 +837,10 @@ func (x *Exec) genericExternal(s *State, f *types.Func, recv *Value, args []*Val
 		return []*Value{prim(e, sig.Results().At(0).Type())}, true
 	}
 	return nil, false
+}
+
+// verifyingSelf reports whether fi is the function currently being verified against its own contract
+// (its body must then be executed, not abstracted, also inside its own contract's spec expressions).
+func (x *Exec) verifyingSelf(fi *FuncInfo) bool {
+	return x.selfFn == fi
 }
